@@ -25,6 +25,9 @@ const ID = "C12"
 //	newrow   a pending row with N cells; attach attaches the oldest pending row
 //	sep      AddSeparator
 //	handle   take and keep t.Column(Col)
+//	setmany  set N distinct keys (8..12, i.e. most of the pool) on the owner in one go
+//	nestcell new owner: a cell built from a cell (NewCell(<copy of a cell owner>)); it starts with no properties of its own
+//	update   call Cell.Update() on a cell/copy owner: properties are not its business
 type Op struct {
 	K     string `json:"k"`
 	Owner Owner  `json:"owner,omitempty"`
@@ -263,6 +266,42 @@ func CheckCase(c Case) *ev.Violation {
 				}
 				r.model[ki] = val
 			}
+		case "setmany":
+			r, ok := w.resolve(op.Owner)
+			if !ok {
+				break
+			}
+			n := op.N
+			if n < 1 {
+				n = 9
+			}
+			for k := 0; k < n && k < len(Keys); k++ {
+				ki := mod(op.Key+k, len(Keys))
+				w.seq++
+				r.po.SetProperty(Keys[ki], w.seq)
+				r.model[ki] = w.seq
+			}
+		case "nestcell":
+			o := op.Owner
+			if o.Kind != "cell" && o.Kind != "hdr" && o.Kind != "copy" {
+				o.Kind = "cell"
+			}
+			r, ok := w.resolve(o)
+			if !ok {
+				break
+			}
+			outer := tabular.NewCell(*(r.po.(*tabular.Cell)))
+			w.copies = append(w.copies, &copyModel{cell: &outer, props: props{}})
+		case "update":
+			o := op.Owner
+			if o.Kind != "cell" && o.Kind != "hdr" && o.Kind != "copy" {
+				o.Kind = "copy"
+			}
+			r, ok := w.resolve(o)
+			if !ok {
+				break
+			}
+			r.po.(*tabular.Cell).Update()
 		case "reset":
 			r, ok := w.resolve(op.Owner)
 			if !ok || len(r.model) == 0 {
@@ -400,9 +439,14 @@ func Classify(c Case) (bool, interface{}, []string) {
 			if op.K == "setnil" {
 				add("set-nil")
 			}
-		case "copycell", "addcopy":
+		case "copycell", "addcopy", "nestcell":
 			copyOrHandle = true
 			add(op.K)
+		case "setmany":
+			multiKey = true
+			add("setmany")
+		case "update":
+			add("update")
 		case "handle":
 			handleAt = cols
 			add("handle")
